@@ -712,4 +712,96 @@ theorem owed_restart {s : HSt} (hwf : WF s) {i : Nat} {c : Chan} {b r : Int} (ho
     · show r ≤ (g m).mt c
       rw [hmt]; exact hre
 
+/-! ### quiet histories -/
+
+theorem wf_finSt {s : HSt} (hwf : WF s) : WF (finSt s) := by
+  obtain ⟨h0, h1, hd, _, _, hids, _⟩ := finSt_spec hwf
+  have hq : ∀ c, (finSt s).q c = #[] := by intro c; cases c; exact h0; exact h1
+  refine ⟨fun c => by rw [hq c]; exact heap_empty, by rw [hd]; exact hwf.heapDone, by rw [hids]; exact hwf.nodupMsgs,
+    fun c => by rw [hq c]; exact List.nodup_nil, fun c e he => ?_⟩
+  rw [hq c] at he; cases he
+
+def qstepSt (s : HSt) : QStep → HSt
+  | .clock t => { s with clock := t }
+  | .wake => s
+  | .pass c l f => passSt s c l f
+  | .restart => loadSt (finSt s)
+
+theorem run_steps (s : HSt) (x : QStep) : run s x.steps = qstepSt s x := by cases x <;> rfl
+
+theorem wf_clock {s : HSt} (hwf : WF s) (t : Int) : WF { s with clock := t } :=
+  ⟨fun c => by cases c; exact hwf.heap .loc; exact hwf.heap .rem, hwf.heapDone, hwf.nodupMsgs,
+   fun c => by cases c; exact hwf.nodupQ .loc; exact hwf.nodupQ .rem,
+   fun c => by cases c; exact hwf.hasFile .loc; exact hwf.hasFile .rem⟩
+
+theorem wf_qstep {s : HSt} (hwf : WF s) (x : QStep) : WF (qstepSt s x) := by
+  cases x with
+  | clock t => exact wf_clock hwf t
+  | wake => exact hwf
+  | pass c l f => exact wf_passSt hwf c l f
+  | restart => exact wf_loadSt (wf_finSt hwf).nodupMsgs
+
+theorem owed_qstep {s : HSt} (hwf : WF s) {i : Nat} {c0 : Chan} {b r : Int} (ho : Owed i c0 b r s)
+    (hmono : ∀ t', r ≤ t' → r ≤ nextretry t' b c0) (hsf : 0 ≤ SLEEP_SYSFAIL) (x : QStep) :
+    Owed i c0 b r (qstepSt s x) := by
+  cases x with
+  | clock t => intro m hm; cases c0; exact ho m hm; exact ho m hm
+  | wake => exact ho
+  | pass c l f => exact owed_passSt hwf ho hmono hsf c l f
+  | restart => exact owed_restart hwf ho
+
+theorem owed_runQ {i : Nat} {c0 : Chan} {b r : Int}
+    (hmono : ∀ t', r ≤ t' → r ≤ nextretry t' b c0) (hsf : 0 ≤ SLEEP_SYSFAIL) :
+    ∀ (l : List QStep) (s : HSt), WF s → Owed i c0 b r s → WF (runQ s l) ∧ Owed i c0 b r (runQ s l) := by
+  intro l
+  induction l with
+  | nil => intro s hwf ho; exact ⟨hwf, ho⟩
+  | cons x r' ih =>
+    intro s hwf ho
+    show WF (runQ (run s x.steps) r') ∧ Owed i c0 b r (runQ (run s x.steps) r')
+    rw [run_steps]
+    exact ih _ (wf_qstep hwf x) (owed_qstep hwf ho hmono hsf x)
+
+theorem filter_id_ne_nil (l : List Bool) (h : true ∈ l) : (l.filter id).length ≠ 0 := by
+  intro h0
+  have : true ∈ l.filter id := List.mem_filter.mpr ⟨h, rfl⟩
+  rw [List.eq_nil_of_length_eq_zero h0] at this; cases this
+
+/-- after a pass (no open failure) that leaves a recipient to do, the message is owed its back-off time -/
+theorem owed_init {s : HSt} (hwf : WF s) {c : Chan} {pe : Elt} {q' : PQ} {m : Msg} (letters : List Byte) {f : Fault}
+    (hp : passStart s.clock true (s.q c) = some (pe, q')) (hm : s.find pe.id = some m) (hf : f.trouble = false)
+    (hleft : ∀ m2, (passSt s c letters f).find pe.id = some m2 → ∀ recs2, m2.recs c = some recs2 → true ∈ recs2) :
+    Owed pe.id c m.birth (nextretry s.clock m.birth c) (passSt s c letters f) := by
+  obtain ⟨hdue, hmin, hperm, hh', hmem, hnot, hnd, m0, recs, hm0, hr⟩ := start_facts hwf hp
+  rw [hm] at hm0; cases hm0
+  have hmid : m.id = pe.id := (find_some hm).2
+  have hrun := passSt_run letters hp hf hm hr
+  rw [hrun] at hleft ⊢
+  have hcl : (passOut s c letters f pe q' m recs).close =
+      jobCloseF (passOut s c letters f pe q' m recs).job pe.id true (((passOut s c letters f pe q' m recs).recs'.filter id).length)
+        (decide (f ≠ .unlink)) (if f = .stat then .err else statOf m (other c)) s.clock q' s.done := rfl
+  have hjob : (passOut s c letters f pe q' m recs).job.retry = nextretry s.clock m.birth c := rfl
+  generalize passOut s c letters f pe q' m recs = o at hleft hcl hjob ⊢
+  have hfind : ((mkSt s c o.close.chan o.close.done).update (passMsg m c o)).find pe.id = some (passMsg m c o) := by
+    have := find_update_self (mkSt s c o.close.chan o.close.done) (passMsg m c o) m
+      (by rw [passMsg_id, mkSt_find, hmid]; exact hm)
+    rw [passMsg_id, hmid] at this; exact this
+  intro m1 hm1
+  rw [hfind] at hm1; cases hm1
+  refine ⟨passMsg_birth m c o, fun hfile => ?_⟩
+  rw [update_q, mkSt_q_same]
+  rw [passMsg_recs_same] at hfile
+  cases hrm : o.close.removed with
+  | true => rw [hrm] at hfile; cases hfile
+  | false =>
+    have hl := hleft _ hfind o.recs' (by rw [passMsg_recs_same, hrm]; rfl)
+    have hnt := filter_id_ne_nil _ hl
+    rcases closeF_cases o.job pe.id ((o.recs'.filter id).length) (decide (f ≠ .unlink))
+        (if f = .stat then .err else statOf m (other c)) s.clock q' s.done with h | h
+    · rcases h.2.2 with ⟨_, h3⟩ | ⟨h0, _⟩
+      · rw [hcl, h3]
+        exact ⟨_, (mem_insert q' _ _ hh').mpr (Or.inl rfl), rfl, by rw [hjob]; exact Int.le_refl _⟩
+      · exact absurd h0 hnt
+    · exact absurd h.1 hnt
+
 end Nq.Lemmas.SchedHist
